@@ -18,7 +18,7 @@ from mc.refmodels import netlist as nl
 LEVEL = 'model_checking'
 RULE = ('seq: breadth-first over reference-netlist states (dedup on the full observable structure), all enabled '
         'operations of the alphabet {Wire x|y in top|child, Buf u|v, Constant v|k, Logic top/c top/u c/u, '
-        'wrapper(addOut on wire + inner Constant), rename, reparent, reparentAndRename} at every state up to depth D; '
+        'wrapper(addOut on wire + inner Constant), rename, reparent, reparentAndRename, disconnectWireFromLogicObject(wire, top-level child)} at every state up to depth D; '
         'every transition = the operation history replayed on a fresh HWSystem and compared (must-raise per the '
         'statement, earlier child/wire/driver identity, full structure); non-trivial = transitions whose call must '
         'raise.  blk: per catalogue block one correct design (all inputs driven by Constant), one design per '
@@ -86,6 +86,8 @@ class Real:
                 L = Logic(self.top, op[1])
                 L.addOut('r', self.W[op[2]])
                 py4hw.Constant(L, 'k', 1, self.W[op[2]])
+            elif k == 'disc':
+                disconnectWireFromLogicObject(self.W[op[1]], self.top.children[op[2]])
             elif k == 'rename':
                 self.W[op[1]].rename(op[2])
             elif k == 'reparent':
@@ -114,7 +116,7 @@ class Real:
         wh[id(self.clk)] = nl.CLK
 
         def H(w):
-            return wh.get(id(w), '?')
+            return None if w is None else wh.get(id(w), '?')
 
         def port(p):
             return (ids.get(id(p.parent), '?'), p.name)
@@ -133,7 +135,16 @@ class Real:
             return self.obj(c[1]).children.get(c[2])
         if c[0] == 'wire':
             return self.obj(c[1])._wires.get(c[2])
-        return self.W[c[1]].source
+        w = self.W[c[1]]
+        if w.source is not None:
+            return w.source
+        # no registered source: the driver is the primitive block whose output port is attached to the wire
+        for leaf in self.top.allLeaves():
+            if leaf is not self.top and leaf.isPrimitive():
+                for p in leaf.outPorts:
+                    if p.wire is w:
+                        return p
+        return None
 
 
 def _descr(x, real=None):
@@ -179,6 +190,12 @@ def check_transition(hist, op, pre):
         # forbid that residue by itself; what it forbids - a later call silently evicting the other wire - is then
         # found on the following transitions)
         outcome2, post2 = nl.apply(pre, op, residue=True)
+        if (exc is None) == (outcome2 == 'ok') and got == post2.key():
+            outcome, post = outcome2, post2
+    if ((exc is None) != (outcome == 'ok') or got != post.key()) and op[0] == 'disc':
+        # follow an implementation that disconnects by the object's own port list (structural blocks too); whether that leads
+        # to a wire with two drivers is decided by the statement's rule on the following transitions
+        outcome2, post2 = nl.apply(pre, op, general=True)
         if (exc is None) == (outcome2 == 'ok') and got == post2.key():
             outcome, post = outcome2, post2
     if (exc is None) != (outcome == 'ok') or got != post.key():
